@@ -630,10 +630,24 @@ class Rectangle(Shape):
                          radius=radius,
                          rotation=rotation,
                          **kwargs)
-        self._lower_coord = complex(min(first.real, second.real),
-                                    min(first.imag, second.imag))
-        self._upper_coord = complex(max(first.real, second.real),
-                                    max(first.imag, second.imag))
+        # The corners are stored relative to the central position so that
+        # they follow the rectangle when its position is changed
+        self._lower_rel_coord = complex(min(first.real, second.real),
+                                        min(first.imag,
+                                            second.imag)) - central_pos
+        self._upper_rel_coord = complex(max(first.real, second.real),
+                                        max(first.imag,
+                                            second.imag)) - central_pos
+
+    @property
+    def _lower_coord(self) -> complex:
+        """Lower left corner (without rotation) for the current position."""
+        return self._lower_rel_coord + self.pos
+
+    @property
+    def _upper_coord(self) -> complex:
+        """Upper right corner (without rotation) for the current position."""
+        return self._upper_rel_coord + self.pos
 
     def __repr__(self) -> str:  # pragma: no cover
         """
